@@ -368,7 +368,7 @@ def main():
     chk = Check(PID)
     rej = load_rejections()
     items = []
-    nodes, _ = audit.corpus(chk.thorough)
+    nodes, _ = audit.corpus(chk.thorough, extra_dims=("mesh2",))
     for k, cfg in nodes.items():
         items.append(("cfg", k, cfg, "float64"))
     for k, cfg in list(nodes.items())[::5]:
